@@ -88,9 +88,27 @@ _ADDR = re.compile(r"0x[0-9a-fA-F]{6,}")
 _BRACE = re.compile(r"[{},]\s*")
 
 
-def canon_stdout(out):
+def iterates_a_map(cwd):
+    """True when a source file under cwd takes keys() / values() / pairs() of a map: the ORDER of what such a program prints per element is
+    the HashMap's iteration order, which differs between two processes of the same binary."""
+    import re
+    for root, _, fs in os.walk(cwd):
+        for f in fs:
+            if f.endswith(".ms"):
+                try:
+                    if re.search(r"\.(pairs|keys|values)\s*\(", open(os.path.join(root, f), encoding="utf-8").read()):
+                        return True
+                except (OSError, UnicodeDecodeError):
+                    pass
+    return False
+
+
+def canon_stdout(out, unordered_lines=False):
     """Canonical form of stdout for differential comparison: lines that print a map are
-    compared as sorted token multisets (HashMap iteration order differs between processes)."""
+    compared as sorted token multisets (HashMap iteration order differs between processes);
+    with unordered_lines (program iterates over a map) the lines themselves are compared as a multiset."""
+    if unordered_lines:
+        return "\n".join(sorted(canon_stdout(out).split("\n")))
     lines = []
     out = _ADDR.sub("0xN", out)
     for line in out.split("\n"):
